@@ -1,5 +1,7 @@
 package vrt
 
+import "sort"
+
 // Timer is a pending wake-up on the virtual clock. Fire runs in controller context.
 type Timer struct {
 	At     int64
@@ -7,6 +9,7 @@ type Timer struct {
 	Fire   func()
 	active bool
 	Desc   string
+	hid    uint64 // interleaving-independent identity
 }
 
 // Now returns the virtual clock (ns since the virtual epoch). In pass-through mode a process-wide
@@ -35,6 +38,12 @@ func AddTimer(d int64, desc string, fire func()) *Timer {
 	}
 	s.timerSeq++
 	t := &Timer{At: s.clock + d, seq: s.timerSeq, Fire: fire, active: true, Desc: desc}
+	if c := s.cur; c != nil && !s.inCtl {
+		c.nev++
+		t.hid = mix(mix(c.stable, c.nev), c.last)
+	} else {
+		t.hid = mix(s.global, uint64(len(s.timers))+77)
+	}
 	s.timers = append(s.timers, t)
 	return t
 }
@@ -92,10 +101,11 @@ func (s *Sched) fireEarliest() {
 			cand = append(cand, t)
 		}
 	}
-	// registration order is canonical
+	// canonical order: by interleaving-independent identity
+	sort.Slice(cand, func(i, j int) bool { return cand[i].hid < cand[j].hid })
 	k := 0
 	if len(cand) > 1 {
-		k = s.chooser.Choose(KClock, len(cand), false)
+		k = s.choose(KClock, len(cand), false, nil)
 	}
 	t := cand[k]
 	for i, x := range s.timers {
@@ -111,7 +121,9 @@ func (s *Sched) fireEarliest() {
 	if s.cfg.Trace {
 		s.res.Trace = append(s.res.Trace, Step{Thread: -1, Label: "clock", Op: "fire " + t.Desc, Clock: s.clock})
 	}
+	s.globalEvent(t.hid)
 	s.ctl(t.Fire)
+	s.globalEvent(3)
 }
 
 // PendingTimers returns the number of pending timers.
